@@ -1,20 +1,24 @@
 #!/bin/bash
-# Runs every seeded change (seeded/<id>/patch.diff) against the quick check of its property, each in a fresh scratch
-# worktree of /repo (never /repo itself), and writes .work/mutfinal.txt; then regenerates seeded/RESULTS.md.
+# Runs seeded changes (seeded/<id>/patch.diff; all of them, or the ids given) against the quick check of their property,
+# each in a fresh scratch worktree of /repo (never /repo itself); results are merged into .work/mutfinal.txt (latest run
+# of an id wins) and seeded/RESULTS.md is regenerated.
 cd /verif
-: > .work/mutfinal.txt
-for d in seeded/C*/; do
-  id=$(basename $d); prop=${id:0:3}
+touch .work/mutfinal.txt
+ids="$@"; [ -z "$ids" ] && ids=$(ls seeded | grep '^C')
+for id in $ids; do
+  prop=${id:0:3}
   wt=/tmp/mw_$id
   git -C /repo worktree add -q --detach $wt HEAD || continue
   if git -C $wt apply /verif/seeded/$id/patch.diff; then
     s=$(date +%s)
     VERIF_REPO=$wt VERIF_EVIDENCE_DIR=/verif/.work/ev_mut ./check $prop quick > .work/mf_$id.out 2> .work/mf_$id.err; rc=$?
     e=$(date +%s)
-    echo "$id rc=$rc wall=$((e-s))s :: $(grep -h 'violation tag' .work/mf_$id.err | sort | uniq -c | head -4 | tr '\n' ';')" >> .work/mutfinal.txt
+    line="$id rc=$rc wall=$((e-s))s :: $(grep -h 'violation tag' .work/mf_$id.err | sort | uniq -c | head -4 | tr '\n' ';') $(grep -h HARNESS-ERROR .work/mf_$id.err | head -1 | cut -c1-200)"
   else
-    echo "$id patch-does-not-apply" >> .work/mutfinal.txt
+    line="$id patch-does-not-apply"
   fi
+  grep -v "^$id " .work/mutfinal.txt > .work/mutfinal.tmp; mv .work/mutfinal.tmp .work/mutfinal.txt
+  echo "$line" >> .work/mutfinal.txt; echo "$line"
   git -C /repo worktree remove --force $wt
 done
 /opt/veriftools/pyvenv/bin/python tools/mkresults.py
